@@ -316,10 +316,68 @@ def rule_bracket_extents(ctx: Ctx, rule: str) -> None:
     for meth in ('parse_extend',):
         a = repo.func(WP, f'WcSplit.{meth}')
         b = repo.func('glob', f'_GlobSplit.{meth}')
-        sa = norm_src(a.node).replace('_wcparse.', '')
-        sb = norm_src(b.node).replace('_wcparse.', '')
-        ctx.ob(rule, f'siblings:WcSplit.{meth}==_GlobSplit.{meth}', sa == sb, repo.loc('glob', b.node), 'same scanner (modulo module prefix)',
-               'equal' if sa == sb else 'bodies differ', witness="glob('@(a|b)/c', EXTGLOB) must split at the same `/` as globmatch")
+        sa, sb = _scan_summary(repo, a), _scan_summary(repo, b)
+        only_a, only_b = sorted(sa - sb, key=repr), sorted(sb - sa, key=repr)
+        ctx.ob(rule, f'siblings:WcSplit.{meth}==_GlobSplit.{meth}', sa == sb and len(sa) >= 6, repo.loc('glob', b.node),
+               'same scanner: per character class of the list body the same nested scanner is called with the same arguments, the same '
+               'failure handling (decision tables of one loop iteration, scan character and class prefix normalised)',
+               f'{len(sa)} rows equal' if sa == sb else f'only WcSplit: {only_a[:1]}; only _GlobSplit: {only_b[:1]}'[:400],
+               witness="glob('@(a|b)/c', EXTGLOB) must split at the same `/` as globmatch")
+
+
+def _scan_summary(repo: Any, fi: Any) -> set:
+    """Rows (guards on the scan character, package calls in order, result) of one iteration of an extended-list skipping scanner."""
+    from ..symeval import SymEval, Obj, Opaque, _tag, focus
+    pars = [p for p in fi.params() if p != 'self']
+    if len(pars) != 2:
+        raise AnalysisError(f'{fi.qualname}: (c, i) expected')
+    ev = SymEval(repo, inline=False, explore_handlers=True, loop_mode='once', max_paths=5000)
+    paths = ev.tabulate(fi, {pars[0]: Opaque('c'), pars[1]: Opaque('i')}, Obj((fi.module, fi.cls), {}))
+    pre = f'{fi.module}:{fi.cls}.'
+    scan = {k[:-len(" == '\\\\'")] for p in paths for k in p.decisions if k.endswith(" == '\\\\'")}
+    if len(scan) != 1:
+        raise AnalysisError(f'{fi.qualname}: the scan character (the value compared with a backslash) is not unique: {sorted(scan)}')
+    S = next(iter(scan))
+    rows = set()
+    for p in paths:
+        focus(p)
+        d = p.decisions
+        if d.get(f"{S} == ')'") is True:
+            continue  # the iteration that ends the list
+        guards = []
+        for k, v in d.items():
+            if k.startswith('raises(') or k == f"{S} == ')'":
+                continue
+            if S in k or k == 'self.extend':
+                guards.append((k.replace(S, 'C').replace(pre, ''), v))
+        # the iteration proper: between the loop entry and the end of the iteration
+        evs = list(p.events)
+        lo = next((k for k, e in enumerate(evs) if e[0] == 'loop'), None)
+        hi = next((k for k, e in enumerate(evs) if e[0] == 'iterend'), None)
+        inside = evs[lo + 1:hi] if lo is not None and hi is not None else []
+        outside = (evs[:lo] + evs[hi + 1:]) if lo is not None and hi is not None else evs
+
+        def show(seq: list) -> tuple:
+            calls = []
+            for e in seq:
+                if e[0] == 'call' and e[1].startswith(pre):
+                    calls.append(e[1][len(pre):] + '(' + ', '.join(_tag(a).replace(S, 'C') for a in e[2]) + ')')
+                elif e[0] == 'except':
+                    calls.append(f'except {e[3]}')
+                elif e[0] == 'call' and e[1].endswith('.rewind'):
+                    calls.append('rewind')
+            return tuple(calls)
+        if guards and inside:
+            rows.add((tuple(sorted(guards)), show(inside)))
+        # discipline of the outcome: failure = everything read is put back and False is returned; success = True without a failure handler
+        out = show(outside)
+        if p.ret is False:
+            rows.add(('failure puts everything back', bool(out) and out[-1] == 'rewind'))
+        elif p.ret is True:
+            rows.add(('success without failure handling', not any(x.startswith('except') for x in out)))
+        elif not p.raised:
+            rows.add(('returns', _tag(p.ret)))
+    return rows
 
 
 # ================================================================================================ C08
